@@ -112,6 +112,8 @@ pub struct Features {
     pub unbounded_rec: usize,
     /// stream-like folds nested inside a stream-like fold
     pub nested_stream_fold: usize,
+    /// streams filled by >= 3 aps in one run (one generation)
+    pub same_gen_fill: usize,
 }
 
 #[derive(Clone, Debug)]
@@ -672,6 +674,19 @@ impl<'a> Elab<'a> {
         let no_nested = self.cfg.stream_fold_par_only && !env.iters.is_empty();
         if streams && !no_nested && pick(c[0], 100) < 45 && (env.streams.is_empty() || c[1] % 3 == 0) {
             let s = self.fresh("$s");
+            if c[1] % 4 == 1 {
+                // same-generation fill: several aps of distinct literals executed in one run;
+                // the literals come from the pool `match`/`mismatch` conditions compare against
+                let n = 3 + (c[2] % 3) as usize;
+                let aps: Vec<I> = (0..n).map(|k| I::Ap { src: Arg::Str(format!("lit{}", k)), dst: s.clone() }).collect();
+                self.feat.stream_appends += n;
+                self.feat.same_gen_fill += 1;
+                env.streams.push((s.clone(), Shape::Str));
+                let mut c2 = *c;
+                c2[0] = 65535;
+                let f = self.fold_inner(&c2, body, last, env, ctx, Some(s));
+                return I::seq(I::seq_all(aps), f);
+            }
             let obj = c[1] % 2 == 0;
             let mut appends = vec![];
             for k in 0..(2 + (c[2] % 2) as usize) {
